@@ -128,10 +128,18 @@ type gconfig struct {
 	opts api.TransformOptions
 }
 
+// Features whose lowering the property is about.  The ES2015-level features
+// (arrow, destructuring, default-argument, rest-argument, spread,
+// object-accessors ...) are NOT in the pool: their transformation exists only
+// for the ES5 target, which the property excludes (esbuild documents ES6+ ->
+// ES5 as unsupported); e.g. `--supported:arrow=false` with class syntax kept
+// turns `class A { f = () => this }` into `f = function() { return _this }`
+// with no declaration of _this (recorded as an out-of-scope observation by
+// witnessReplay, not as a finding).
 var overrideFeatures = []string{"nullish-coalescing", "logical-assignment", "optional-chain", "exponent-operator", "object-rest-spread",
 	"class-field", "class-static-field", "class-private-field", "class-private-method", "class-private-accessor", "class-private-static-field",
 	"class-private-static-method", "class-private-static-accessor", "class-static-blocks", "class-private-brand-check",
-	"async-await", "async-generator", "for-await", "template-literal", "object-accessors", "default-argument", "destructuring", "rest-argument", "spread", "arrow", "optional-catch-binding"}
+	"async-await", "async-generator", "for-await", "template-literal", "optional-catch-binding"}
 
 func pickConfig(r *Rng) gconfig {
 	o := api.TransformOptions{Loader: api.LoaderJS, LogLevel: api.LogLevelSilent}
@@ -152,12 +160,6 @@ func pickConfig(r *Rng) gconfig {
 		var fs []string
 		for k := r.Range(1, 3); k > 0; k-- {
 			f := r.Pick(overrideFeatures)
-			if f == "arrow" || f == "destructuring" || f == "default-argument" || f == "rest-argument" || f == "spread" || f == "object-accessors" {
-				// not transformable (esbuild reports an error): rarely useful
-				if !r.Chance(10) {
-					f = r.Pick(overrideFeatures[:20])
-				}
-			}
 			o.Supported[f] = false
 			fs = append(fs, f)
 		}
@@ -448,4 +450,18 @@ func witnessReplay(st *Stats) {
 		st.Fail("established-divergence:"+w.id, map[string]string{"id": w.id, "program": w.src, "output": outs[i], "what": w.what}, b.String(), a.String())
 	}
 	st.Extra["witness_replay"] = replay
+	// out of scope (ES5-only transformation reached through an override): observed, not judged
+	obsSrc := "class A { f = () => this instanceof A; }\n$p(new A().f());\n"
+	obsRes := api.Transform(obsSrc, api.TransformOptions{Loader: api.LoaderJS, LogLevel: api.LogLevelSilent, Target: api.ESNext, Supported: map[string]bool{"arrow": false}})
+	if len(obsRes.Errors) == 0 {
+		if rs, err := runNodeAsync([]string{obsSrc, string(obsRes.Code)}, 3000); err == nil {
+			if rs[0].Same(rs[1]) {
+				st.Extra["out_of_scope_arrow_in_class_field"] = "same behaviour"
+			} else {
+				st.Extra["out_of_scope_arrow_in_class_field"] = "supported:arrow=false with class syntax kept: " + firstDiff(rs[0], rs[1])
+			}
+		}
+	} else {
+		st.Extra["out_of_scope_arrow_in_class_field"] = "esbuild reports an error: " + obsRes.Errors[0].Text
+	}
 }
